@@ -54,7 +54,7 @@ def gen_case(rng, maxlen):
         elif k < 0.60: ops.append(["rule", "Rz%d" % len(ops), rng.choice(sorted(species)), rng.choice(["assign", "ode", "ubd"])])
         elif k < 0.69: ops.append(["initialize"])
         elif k < 0.75: ops.append(["interface"])
-        elif k < 0.95: ops.append(["simulate", rng.choice(["det", "ssa", "safe", "delay", "volume"]), rng.randint(1, 2**31)])
+        elif k < 0.95: ops.append(["simulate", rng.choice(["det", "det_loose", "ssa", "safe", "delay", "volume"]), rng.randint(1, 2**31)])
         else: ops.append(["seed", rng.randint(1, 2**31)])
     # a rule on the species "Lz" that the model has had from its construction (so that adding the rule introduces neither a species
     # nor a parameter), placed late: the only thing that tells the model to rebuild is create_rule itself  (seeded change S3_C08)
@@ -134,6 +134,9 @@ def impl_case(case):
             try:
                 py_seed_random(op[2])
                 if op[1] == "det": py_simulate_model(T, Model=M, stochastic=False)
+                # a deterministic run with the caller's own integrator tolerances: they belong to THAT call (seeded change S6_C08: one
+                # shared simulator object kept them for every later deterministic run of the process)
+                elif op[1] == "det_loose": py_simulate_model(T, Model=M, stochastic=False, rtol=1e-2, atol=1e-2)
                 elif op[1] == "ssa": py_simulate_model(T, Model=M, stochastic=True)
                 elif op[1] == "safe": py_simulate_model(T, Model=M, stochastic=True, safe=True)
                 elif op[1] == "delay": py_simulate_model(T, Model=M, stochastic=True, delay=True)
@@ -161,15 +164,18 @@ def impl_case(case):
             res = py_simulate_model(np.linspace(0, 1.5, 4), Model=Mx, stochastic=False, return_dataframe=True)
             return {s_: [fhex(v) for v in res[s_]] for s_ in order}
         except Exception as e: return "EXC:" + type(e).__name__
-    def _decoy():
+    def _decoy(**kw):
         """an unrelated model with the same number of species, every one of them changing, simulated in between: what the fresh model
         then reports must not depend on it (seeded change S5_C08: a derivative buffer kept between deterministic runs of equal size,
         with the entries of reaction-less species never written)"""
         try:
             D = Model(species=list(order), reactions=[([], [s_], "massaction", {"k": 1.0 + i_}) for i_, s_ in enumerate(order)], initial_condition_dict={s_: 1.0 for s_ in order})
-            py_simulate_model(np.linspace(0, 1.0, 3), Model=D, stochastic=False, return_dataframe=False)
+            py_simulate_model(np.linspace(0, 1.0, 3), Model=D, stochastic=False, return_dataframe=False, **kw)
         except Exception: pass
-    raw_h = _raw(M); _decoy(); raw_f = _raw(fresh)
+    raw_h = _raw(M); _decoy(rtol=1e-10, atol=1e-12); raw_f = _raw(fresh)
+    # ... nor on the integrator tolerances some earlier call asked for (S6_C08): once more after a decoy run with loose tolerances
+    _decoy(rtol=1e-2, atol=1e-2); raw_f2 = _raw(fresh)
+    if raw_f2 != raw_f: problems.insert(0, "history dependence (integrator tolerances of an earlier call): built-at-once model after a tight-tolerance run %r, after a loose-tolerance run %r" % (str(raw_f)[:160], str(raw_f2)[:160]))
     if raw_h != raw_f: problems.insert(0, "history dependence (simulation before any re-initialisation): %r vs built at once %r" % (str(raw_h)[:160], str(raw_f)[:160]))
     obs_h = _observe(M, case["seed"]); _decoy()
     out = {"hist": obs_h, "fresh": _observe(fresh, case["seed"]), "problems": problems, "order": order}
